@@ -16,7 +16,13 @@ def pad4_reference(n):
     return (n + 1 + 3) // 4 * 4
 
 
-def check(prog, run):
+def thorough(prog, run):
+    """deeper shapes: every iSCSI name length 1..48 (all padding residues many times), every TransportID kind in one list,
+    larger EXTENDED COPY lists"""
+    check(prog, run, pr_cases=refpl.MORE_PR_CASES, mode_cases=[], xcopy_cases=refpl.MORE_XCOPY_CASES, floors=False)
+
+
+def check(prog, run, pr_cases=None, mode_cases=None, xcopy_cases=None, floors=True):
     I = prog.I
     run.explanation = ("(1) every parameter-list table is specialised through encode_dict and compared with the reference positions; "
                        "(2) for each enumerated shape (service action, TransportID kinds and name lengths, mode page kinds, CSCD / "
@@ -28,7 +34,8 @@ def check(prog, run):
     run.rule_text = "one obligation per table field, per (command, shape) image, per (command, shape) CDB length, per residue of _pad4_len"
     run.trusted += ["spec/paramlists.py, spec/tables.py (hand transcriptions)"]
     run.assumptions += ["dictionaries outside the enumerated shapes / the library's documented keys are not decided"]
-    check_tables(prog, run, {"paramlist"}, rule_prefix="table")
+    if floors:
+        check_tables(prog, run, {"paramlist"}, rule_prefix="table")
     install_watches(prog)
     enum = prog.module(ENUM_MOD).env["spc"]
     ncase = 0
@@ -91,7 +98,7 @@ def check(prog, run):
     # PERSISTENT RESERVE OUT
     pocls = prog.cls(*refpl.PO.split(":"))
     op = enum.members.get("PERSISTENT_RESERVE_OUT")
-    for case in refpl.PR_CASES:
+    for case in (pr_cases if pr_cases is not None else refpl.PR_CASES):
         def build(case=case):
             kw, img = case["build"]()
             kw = dict(kw)
@@ -101,7 +108,7 @@ def check(prog, run):
             return kw, img
         run_case(case["name"], pocls, op, build, len_field=(5, 4))
     # MODE SELECT
-    for case in refpl.MODE_CASES:
+    for case in (mode_cases if mode_cases is not None else refpl.MODE_CASES):
         cls = prog.cls(*case["cls"].split(":"))
         opname = "MODE_SELECT_6" if cls.name.endswith("6") else "MODE_SELECT_10"
 
@@ -110,9 +117,12 @@ def check(prog, run):
             return {"data": data, "pf": Sym.param("pf", 1), "sp": Sym.param("sp", 1)}, img
         run_case(case["name"], cls, enum.members.get(opname), build, len_field=(4, 1) if cls.name.endswith("6") else (7, 2))
     # EXTENDED COPY
-    for case in refpl.XCOPY_CASES:
+    for case in (xcopy_cases if xcopy_cases is not None else refpl.XCOPY_CASES):
         cls = prog.cls(*case["cls"].split(":"))
         run_case(case["name"], cls, enum.members.get("EXTENDED_COPY"), case["build"], len_field=(10, 4))
+    if not floors:
+        run.count("cases", ncase)
+        return
     # _pad4_len for every residue (the argument is only ever measured with len())
     f = prog.func("pyscsi.pyscsi.scsi_cdb_persistentreservein", None, "_pad4_len")
     for n in range(0, 41):
@@ -126,4 +136,5 @@ def check(prog, run):
                           "_pad4_len of a %d-character string is %r; NUL-terminated and padded to four it must be %d" % (n, got, want),
                           prog.rel(f.module), f.node.lineno, f.qualname)
     run.count("cases", ncase)
-    run.floor("parameter-list cases", ncase, 40)
+    if floors:
+        run.floor("parameter-list cases", ncase, 40)
